@@ -104,6 +104,32 @@ def call_builtin(I, name, args, kwargs, fr, node):
             if ctx.decide(hi > lo, 'range-empty'):
                 hi = lo
         return ctx.alloc(HObj('range', 'range', {'lo': VInt(lo), 'hi': VInt(hi), 'step': step}, closed=True))
+    if name == 'any' and len(args) == 1:
+        v = args[0]
+        if isinstance(v, VTuple) or (isinstance(v, VObj) and ctx.heap[v.oid].kind == 'list'):
+            for x in (v.items if isinstance(v, VTuple) else list(ctx.heap[v.oid].fields['items'])):
+                if I.decide_truth(x, 'any-item'):
+                    return VBool(z3.BoolVal(True))
+            return VBool(z3.BoolVal(False))
+        if isinstance(v, VObj) and ctx.heap[v.oid].kind == 'symlist' and ctx.heap[v.oid].fields.get('oneshot') \
+                and len(ctx.heap[v.oid].fields['comps']) == 1 and ctx.heap[v.oid].fields['comps'][0][0].sort().range() == z3.StringSort():
+            # any() over an iterable that can be traversed only once (a generator, iter(list), a file): it consumes the
+            # elements up to and including the first true one - what is left for a later loop is the rest
+            h = ctx.heap[v.oid]
+            (arr, ty), = h.fields['comps']
+            n = h.fields['len'].t
+            j = z3.Int('anyj')
+            if ctx.choose(2, 'any-result') == 0:
+                ctx.assume(z3.ForAll([j], z3.Implies(z3.And(j >= 0, j < n), z3.Length(arr[j]) == 0)))
+                h.fields['len'] = VInt(z3.IntVal(0))
+                return VBool(z3.BoolVal(False))
+            p = ctx.fresh(T.Int, 'anyfirst').t
+            ctx.assume(z3.And(p >= 0, p < n, z3.Length(arr[p]) > 0))
+            i = z3.Int('anyi')
+            h.fields['comps'] = [(z3.Lambda([i], arr[i + p + 1]), ty)]
+            h.fields['len'] = VInt(n - p - 1)
+            return VBool(z3.BoolVal(True))
+        raise Unsupported('builtin any over %r' % (v,))
     if name == 'enumerate':
         return ctx.alloc(HObj('enumerate', 'enumerate', {'inner': args[0]}, closed=True))
     if name == 'iter':
